@@ -61,6 +61,7 @@ package minter
 //@ # ---------------------------------------------------------------- voting powers of the block (C20, C19)
 //@ # only validators recorded as present (and not to be dropped) get voting power; total = sum of those (or 1)
 //@ spec presentPower(vals []*validators2.Validator, n int, b *Blockchain) int = n <= 0 ? 0 : presentPower(vals, n-1, b) + (isPresent(vals[n-1], b) ? vals[n-1].totalStake.val : 0)
+//@ spec restPower(vals []*validators2.Validator, k int, b *Blockchain) int = k >= len(vals) ? 0 : (isPresent(vals[k], b) ? vals[k].totalStake.val : 0) + restPower(vals, k+1, b)
 //@ spec isPresent(v *validators2.Validator, b *Blockchain) bool = !v.toDrop && b.validatorsStatuses[v.tmAddress] == ValidatorPresent
 
 //@ func (*Blockchain).calculatePowers
@@ -71,8 +72,13 @@ package minter
 //@   requires distinctkeys: forall i int, j int :: 0 <= i && i < j && j < len(vals) ==> vals[i].PubKey != vals[j].PubKey
 //@   ensures onlypresent: forall i int :: 0 <= i && i < len(vals) ==> ((vals[i].PubKey in blockchain.validatorsPowers) <==> old(isPresent(vals[i], blockchain)))
 //@   ensures power: forall i int :: 0 <= i && i < len(vals) && old(isPresent(vals[i], blockchain)) ==> blockchain.validatorsPowers[vals[i].PubKey] != nil && blockchain.validatorsPowers[vals[i].PubKey].val == old(vals[i].totalStake.val)
+//@   # the same total as a sum from the back (the form the reward distribution needs)
+//@   ensures totalsuffix: blockchain.totalPower.val == (old(restPower(vals, 0, blockchain)) == 0 ? 1 : old(restPower(vals, 0, blockchain)))
+//@   ensures statuseskept: blockchain.validatorsStatuses == old(blockchain.validatorsStatuses)
+//@   modifies blockchain.validatorsPowers, blockchain.totalPower
 //@   loop 0 invariant bounds: -1 <= rangeindex && (rangeindex < len(vals) || (rangeindex == -1 && len(vals) == 0))
 //@   loop 0 invariant sum: blockchain.totalPower != nil && fresh(blockchain.totalPower) && blockchain.totalPower.val == old(presentPower(vals, rangeindex + 1, blockchain))
+//@   loop 0 invariant suffix: blockchain.totalPower.val + old(restPower(vals, rangeindex + 1, blockchain)) == old(restPower(vals, 0, blockchain))
 //@   loop 0 invariant dom: fresh(blockchain.validatorsPowers) && forall i int :: 0 <= i && i < len(vals) ==> ((vals[i].PubKey in blockchain.validatorsPowers) <==> (i <= rangeindex && old(isPresent(vals[i], blockchain))))
 //@   loop 0 invariant pow: forall i int :: 0 <= i && i <= rangeindex && old(isPresent(vals[i], blockchain)) ==> blockchain.validatorsPowers[vals[i].PubKey] != nil && fresh(blockchain.validatorsPowers[vals[i].PubKey]) && blockchain.validatorsPowers[vals[i].PubKey] != blockchain.totalPower && blockchain.validatorsPowers[vals[i].PubKey].val == old(vals[i].totalStake.val)
 
@@ -104,3 +110,4 @@ package minter
 //@   loop 1 invariant powers: 0 <= i && i <= rangeindex && totalPower.val > 0 ==> newValidators[i].Power == max(1, div(totalStakeOf(cs, newCandidates[i].PubKey) * 100000000, totalPower.val))
 //@   loop 1 invariant total: totalPower.val == candSum(newCandidates, len(newCandidates), cs)
 //@ spec candSum(l []*candidates.Candidate, n int, c *candidates.Candidates) int = n <= 0 ? 0 : candSum(l, n-1, c) + totalStakeOf(c, l[n-1].PubKey)
+
